@@ -408,6 +408,14 @@ package lnwallet
 //@   site call lookupHtlc nth 0: assert arg(0) == remoteUpdateLog && arg(1) == dynptr(m, *lnwire.UpdateFulfillHTLC).ID
 //@   site call lookupHtlc nth 1: assert arg(0) == remoteUpdateLog && arg(1) == dynptr(m, *lnwire.UpdateFailHTLC).ID
 //@   site call lookupHtlc nth 2: assert arg(0) == remoteUpdateLog && arg(1) == dynptr(m, *lnwire.UpdateFailMalformedHTLC).ID
+//@   site store paymentDescriptor.Amount nth 0: assert value == ret(lookupHtlc, 0).Amount
+//@   site store paymentDescriptor.Amount nth 1: assert value == ret(lookupHtlc, 1).Amount
+//@   site store paymentDescriptor.Amount nth 2: assert value == ret(lookupHtlc, 2).Amount
+//@   site store paymentDescriptor.Amount nth 3: assert value == ret(NewMSatFromSatoshis)
+//@   site call NewMSatFromSatoshis: assert arg(0) == dynptr(logUpdate.UpdateMsg, *lnwire.UpdateFee).FeePerKw
+//@   site store paymentDescriptor.ParentIndex nth 0: assert value == ret(lookupHtlc, 0).HtlcIndex
+//@   site store paymentDescriptor.ParentIndex nth 1: assert value == ret(lookupHtlc, 1).HtlcIndex
+//@   site store paymentDescriptor.ParentIndex nth 2: assert value == ret(lookupHtlc, 2).HtlcIndex
 //@
 //@ func (lc *LightningChannel) remoteLogUpdateToPayDesc
 //@   props C03 C02
@@ -423,6 +431,17 @@ package lnwallet
 //@   site call lookupHtlc nth 0: assert arg(0) == localUpdateLog && arg(1) == dynptr(m, *lnwire.UpdateFulfillHTLC).ID
 //@   site call lookupHtlc nth 1: assert arg(0) == localUpdateLog && arg(1) == dynptr(m, *lnwire.UpdateFailHTLC).ID
 //@   site call lookupHtlc nth 2: assert arg(0) == localUpdateLog && arg(1) == dynptr(m, *lnwire.UpdateFailMalformedHTLC).ID
+//@   site store paymentDescriptor.Amount nth 0: assert value == dynptr(logUpdate.UpdateMsg, *lnwire.UpdateAddHTLC).Amount
+//@   site store paymentDescriptor.Amount nth 1: assert value == ret(lookupHtlc, 0).Amount
+//@   site store paymentDescriptor.Amount nth 2: assert value == ret(lookupHtlc, 1).Amount
+//@   site store paymentDescriptor.Amount nth 3: assert value == ret(lookupHtlc, 2).Amount
+//@   site store paymentDescriptor.Amount nth 4: assert value == ret(NewMSatFromSatoshis)
+//@   site call NewMSatFromSatoshis: assert arg(0) == dynptr(logUpdate.UpdateMsg, *lnwire.UpdateFee).FeePerKw
+//@   site store paymentDescriptor.HtlcIndex: assert value == dynptr(logUpdate.UpdateMsg, *lnwire.UpdateAddHTLC).ID
+//@   site store paymentDescriptor.Timeout: assert value == dynptr(logUpdate.UpdateMsg, *lnwire.UpdateAddHTLC).Expiry
+//@   site store paymentDescriptor.ParentIndex nth 0: assert value == ret(lookupHtlc, 0).HtlcIndex
+//@   site store paymentDescriptor.ParentIndex nth 1: assert value == ret(lookupHtlc, 1).HtlcIndex
+//@   site store paymentDescriptor.ParentIndex nth 2: assert value == ret(lookupHtlc, 2).HtlcIndex
 //@
 //@ func (lc *LightningChannel) evaluateHTLCView
 //@   props C01
@@ -657,7 +676,9 @@ package lnwallet
 //@   site call HtlcSigHashType: assert arg(chanType) == chanType
 //@   site call SecondLevelHtlcScript: assert arg(chanType) == chanType && arg(initiator) == isCommitFromInitiator &&
 //@        arg(revocationKey) == keyRing.RevocationKey && arg(delayKey) == keyRing.ToLocalKey && arg(csvDelay) == csvDelay && arg(leaseExpiry) == leaseExpiry
-//@   site call TaprootSecondLevelScriptTree: assert arg(0) == keyRing.RevocationKey && arg(1) == keyRing.ToLocalKey && arg(2) == csvDelay
+//@   site call TaprootSecondLevelScriptTree: assert arg(0) == keyRing.RevocationKey && arg(1) == keyRing.ToLocalKey && arg(2) == csvDelay &&
+//@        chanType.IsTaproot() && (chanType.IsTaprootFinal() ==> len(arg(4)) == 1 && arg(4)[0] == ret(WithProdScripts)) &&
+//@        (!chanType.IsTaprootFinal() ==> len(arg(4)) == 0)
 //@   site call SingleTweakBytes: assert arg(commitPoint) == keyRing.CommitPoint && arg(basePoint) == localChanCfg.DelayBasePoint.PubKey
 //@   site call HtlcSignDetails: assert arg(chanType) == chanType && arg(sigHash) == ret(HtlcSigHashType) && arg(peerSig) == retn(ParseSignature, 0)
 //@   site store OutgoingHtlcResolution.Expiry: assert value == htlc.RefundTimeout
@@ -707,7 +728,9 @@ package lnwallet
 //@   site call HtlcSigHashType: assert arg(chanType) == chanType
 //@   site call SecondLevelHtlcScript: assert arg(chanType) == chanType && arg(initiator) == isCommitFromInitiator &&
 //@        arg(revocationKey) == keyRing.RevocationKey && arg(delayKey) == keyRing.ToLocalKey && arg(csvDelay) == csvDelay && arg(leaseExpiry) == leaseExpiry
-//@   site call TaprootSecondLevelScriptTree: assert arg(0) == keyRing.RevocationKey && arg(1) == keyRing.ToLocalKey && arg(2) == csvDelay
+//@   site call TaprootSecondLevelScriptTree: assert arg(0) == keyRing.RevocationKey && arg(1) == keyRing.ToLocalKey && arg(2) == csvDelay &&
+//@        chanType.IsTaproot() && (chanType.IsTaprootFinal() ==> len(arg(4)) == 1 && arg(4)[0] == ret(WithProdScripts)) &&
+//@        (!chanType.IsTaprootFinal() ==> len(arg(4)) == 0)
 //@   site call SingleTweakBytes: assert arg(commitPoint) == keyRing.CommitPoint && arg(basePoint) == localChanCfg.DelayBasePoint.PubKey
 //@   site call HtlcSignDetails: assert arg(chanType) == chanType && arg(sigHash) == ret(HtlcSigHashType) && arg(peerSig) == retn(ParseSignature, 0)
 //@   site store IncomingHtlcResolution.CsvDelay nth 0: assert whoseCommit.IsRemote() && value == ret(HtlcSecondLevelInputSequence)
